@@ -134,6 +134,7 @@ class Frame(object):
         self.env = {}      # decl id -> value   (locals / by-value params)
         self.alias = {}    # decl id -> lvalue key in an outer store
         self.this = None   # prefix of 'this' fields
+        self.outer = None  # enclosing frame of an inlined lambda body (captured variables are looked up there)
 
 
 class Path(object):
@@ -488,8 +489,13 @@ class Interp(object):
             d = n['d']
             if n.get('g'):
                 return 'G:' + n.get('q', n['n'])
-            if d in fr.alias:
-                return fr.alias[d]
+            cur = fr
+            while cur is not None:
+                if d in cur.alias:
+                    return cur.alias[d]
+                if d in cur.env:
+                    return ('L', id(cur), d)
+                cur = cur.outer
             return ('L', id(fr), d)
         if k == 'MemberExpr' and n.get('dk') == 'Field':
             base = n['c'][0] if n.get('c') else None
@@ -909,6 +915,8 @@ class Interp(object):
         obj, args = self.call_args(fr, n)
         nf = Frame(g)
         self.frames[id(nf)] = nf
+        if g.sym.get('kind') == 'lambda' or g.id.startswith('(lambda at'):
+            nf.outer = fr       # a lambda called in the scope that created it: its captures are the creator's variables
         for i, p in enumerate(g.params):
             if i >= len(args):
                 nf.env[p['d']] = TOP
